@@ -96,6 +96,24 @@ def write_inputs(d: str, seed: int, n: int) -> List[Tuple[str, str, str]]:
         for tag, data in (("trunc", rawx[:k]), ("flip", rawx[:k] + bytes([rawx[k] ^ 0x5A]) + rawx[k + 1:])):
             p = os.path.join(d, f"d{i}-{tag}.xml")
             open(p, "wb").write(data); out.append((p, "xml", "damaged:" + tag))
+    # valid ZIP containers whose OPC parts are damaged one by one (content types stream, relationships, payload)
+    import zipfile
+    src_pkgs = [pth for pth, f, c in out if f == "aasx" and c == "valid"][:2]
+    for pi, src in enumerate(src_pkgs):
+        with zipfile.ZipFile(src) as z:
+            members = [(zi, z.read(zi.filename)) for zi in z.infolist()]
+        for mi, (zi, data) in enumerate(members):
+            for tag, newdata in (("empty", b""), ("trunc", data[: len(data) // 2]), ("junk", b"<not-xml"), ("drop", None)):
+                p = os.path.join(d, f"z{pi}-{mi}-{tag}.aasx")
+                with zipfile.ZipFile(p, "w", zipfile.ZIP_DEFLATED) as z2:
+                    for zj, dj in members:
+                        if zj.filename == zi.filename:
+                            if newdata is None:
+                                continue
+                            z2.writestr(zj.filename, newdata)
+                        else:
+                            z2.writestr(zj.filename, dj)
+                out.append((p, "aasx", f"damaged-part:{tag}"))
     garbage = [b"", b"{", b"[1,2]", b'{"submodels": 5}', b'{"submodels": [{"modelType": "Submodel"}]}', b"\xff\xfe\x00\x01", b"<a>", b"<a/>",
                b'<?xml version="1.0"?><environment xmlns="https://admin-shell.io/aas/3/0"><submodels><submodel/></submodels></environment>',
                b"PK\x03\x04garbage", bytes(rng.randrange(256) for _ in range(64))]
@@ -223,7 +241,7 @@ def correspond(ctx: C.Ctx, cov: C.Coverage) -> List[C.Disagreement]:
         # checker: equal pairs and single-attribute mutations
         from vf import codec
         T = codec.load_table(c03.GEN_JSON)
-        pairs = checker_pairs(ctx.seed, ctx.budget(300, 4000))
+        pairs = checker_pairs(ctx.seed, ctx.budget(300, 4000), all_zoo=ctx.tier != "quick")
         for a, b, what in pairs:
             va, vb = T.sort_unordered(T.to_val(a)), T.sort_unordered(T.to_val(b))
             lines.append(["checkeq", va, vb]); expect.append(("verdict", real_verdict(a, b))); meta_.append(("pair", what))
@@ -424,6 +442,8 @@ def mutate_attr(obj, rng) -> Optional[Tuple[str, str]]:
                     setattr(o, attr, not v); return cls, attr
                 if head == "typed" and type(v).__name__ in ("str", "String", "AnyURI"):
                     setattr(o, attr, type(v)(str(v) + "1")); return cls, attr
+                if head == "typed" and not isinstance(v, bool) and bump(v) is not None:
+                    setattr(o, attr, bump(v)); return cls, attr + ":" + type(v).__name__
                 if head == "typed" and isinstance(v, bool):
                     setattr(o, attr, not v); return cls, attr
                 if head == "lss" and v is not None:
@@ -437,6 +457,46 @@ def mutate_attr(obj, rng) -> Optional[Tuple[str, str]]:
                     setattr(o, attr, None); return cls, attr
             except Exception:
                 continue
+    return None
+
+
+def bump(v):
+    """the nearest different value of the same type (last digit / last unit), or None"""
+    import datetime
+    import decimal
+    import math
+    try:
+        if isinstance(v, bool):
+            return not v
+        if isinstance(v, int):
+            for w in (int(v) + 1, int(v) - 1):
+                try:
+                    return type(v)(w)
+                except Exception:
+                    continue
+            return None
+        if isinstance(v, float):
+            if math.isnan(v) or math.isinf(v):
+                return type(v)(1.0)
+            return type(v)(math.nextafter(v, math.inf))
+        if isinstance(v, decimal.Decimal):
+            if not v.is_finite():
+                return None
+            sign, digits, exp = v.as_tuple()
+            last = (digits[-1] + 1) % 10
+            return decimal.Decimal((sign, digits[:-1] + (last,), exp))     # exact: only the last stored digit differs
+        if isinstance(v, (bytes, bytearray)):
+            return type(v)(bytes(v) + b"\x01")
+        if isinstance(v, datetime.datetime):
+            return v + datetime.timedelta(microseconds=1) if v.year < 9999 else v - datetime.timedelta(microseconds=1)
+        if isinstance(v, datetime.time):
+            return v.replace(microsecond=(v.microsecond + 1) % 1000000)
+        if hasattr(v, "normalized") and hasattr(v, "microseconds"):
+            return type(v)(years=v.years, months=v.months, days=v.days, hours=v.hours, minutes=v.minutes, seconds=v.seconds,
+                           microseconds=v.microseconds + (1 if v.microseconds >= 0 and v.seconds >= 0 and v.years >= 0 and v.months >= 0
+                                                          and v.days >= 0 and v.hours >= 0 and v.minutes >= 0 else -1))
+    except Exception:
+        return None
     return None
 
 
@@ -521,7 +581,7 @@ def has_unordered_list_or_nan(obj) -> bool:
     return '"order_relevant": ["b", false]' in s
 
 
-def checker_pairs(seed: int, n: int):
+def checker_pairs(seed: int, n: int, all_zoo: bool = False):
     from vf import canon
     rng = random.Random(f"C20pairs:{seed}")
     out = []
@@ -537,6 +597,24 @@ def checker_pairs(seed: int, n: int):
                 if w and canon.diff(canon.canon(a), canon.canon(b)) is not None:
                     out.append((a, b, w))
                     break
+    # directed: every edge value of every XSD type (the zoo) changed in its last digit / unit
+    from vf import gen as _gen
+    za = _gen.Gen(random.Random("C20zoo"), max_depth=3).zoo_submodel()
+    k_ = 0
+    for el in list(za.submodel_element):
+        if type(el).__name__ == "Property" and bump(el.value) is not None:
+            k_ += 1
+            if not all_zoo and k_ % 8 != seed % 8:
+                continue                      # an eighth of them per seed (all of them over eight seeds; every one in the thorough tier)
+            zb = _gen.Gen(random.Random("C20zoo"), max_depth=3).zoo_submodel()
+            zc = _gen.Gen(random.Random("C20zoo"), max_depth=3).zoo_submodel()
+            tgt = zc.get_referable(el.id_short)
+            try:
+                tgt.value = bump(tgt.value)
+            except Exception:
+                continue
+            if canon.diff(canon.canon(zb), canon.canon(zc)) is not None:
+                out.append((zb, zc, ("Property", "value:" + type(el.value).__name__)))
     # directed: every optional attribute of every class absent on one side (both argument orders are judged later)
     from vf import meta as _meta
     for cls_, rows in _meta.META.items():
